@@ -8,7 +8,7 @@
    respond, drop, hold, shutdown) from the initial state; [msgs_of h w] are the TALKRESP messages
    handed to the handler on behalf of the [h]-th delivered request. *)
 From Coq Require Import List NArith Bool.
-From Discv5V Require Import Model.Talk Proofs.Talk.
+From Discv5V Require Import Model.Talk Proofs.Talk Proofs.TalkGap.
 Import ListNotations.
 Local Open Scope N_scope.
 
@@ -100,3 +100,82 @@ Example C20_hypotheses_after_shutdown :
   open (final pre) = false.
 Proof. vm_compute. split; reflexivity. Qed.
 Print Assumptions C20_hypotheses_after_shutdown.
+
+(* ---------------------------------------------------------------------------------------------- *)
+(* From the delivery to the response, in terms of the operation list alone (gap audit,
+   notes/gap_audit_C14_C20.md): the theorems above assume that the application holds the request
+   object ([lookup h (pool ..) = Some t]); these derive it from the delivery.
+   [handle_after pre] is the handle of the next delivery after [pre] (the number of deliveries so
+   far); [names h o] says that [o] is a respond / drop of the object with handle [h]. *)
+
+(* "each TALKREQ delivered to the application": the delivery hands over an object carrying the id
+   and the node address of the request, which stays with the application until its first
+   respond / drop, whatever else happens (other requests, shutdown). *)
+Theorem C20_delivery_hands_over_the_request_object :
+  forall pre id addr between,
+  forallb (fun o => negb (names (handle_after pre) o)) between = true ->
+  lookup (handle_after pre) (pool (final (pre ++ ODeliver id addr :: between)))
+  = Some {| tid := id; taddr := addr; tsender := Some HandlerChan |}.
+Proof. exact delivered_object_held. Qed.
+Print Assumptions C20_delivery_hands_over_the_request_object.
+
+Theorem C20_delivery_handle_is_the_ledger_handle :
+  forall pre id addr post,
+  In (handle_after pre, (id, addr)) (number 0 (deliveries (pre ++ ODeliver id addr :: post))).
+Proof. exact delivered_handle_in_ledger. Qed.
+Print Assumptions C20_delivery_handle_is_the_ledger_handle.
+
+(* The property, end to end: a TALKREQ (id, addr) is delivered after any history [pre]; the
+   application holds it during any [between] and then responds with [body] or drops it
+   (body = []); the node is running up to that point.  Then respond returns Ok / drop returns, and
+   whatever happens afterwards ([post]: further responds, drops, deliveries, shutdown) the
+   TALKRESP messages for this request are exactly one, with the request's id, the node address it
+   came from and the application's payload / the empty payload. *)
+Theorem C20_delivered_request_answered_exactly_once :
+  forall pre id addr between o body post,
+  let h := handle_after pre in
+  forallb (fun o => negb (names h o)) between = true ->
+  existsb is_shutdown (pre ++ ODeliver id addr :: between) = false ->
+  (o = ORespond h body \/ (o = ODrop h /\ body = [])) ->
+  let ops := (pre ++ ODeliver id addr :: between) ++ o :: post in
+  nth (length (pre ++ ODeliver id addr :: between)) (results ops) RNoSuch
+    = (match o with ORespond _ _ => ROk | _ => RUnit end) /\
+  msgs_of h (final ops) = [{| mh := h; mid := id; maddr := addr; mbody := body |}].
+Proof. exact delivered_answered_exactly_once. Qed.
+Print Assumptions C20_delivered_request_answered_exactly_once.
+
+(* ... after a shutdown: the error value for respond, a plain return for drop, no response *)
+Theorem C20_delivered_request_consumed_after_shutdown :
+  forall pre id addr between o post,
+  let h := handle_after pre in
+  forallb (fun o => negb (names h o)) between = true ->
+  existsb is_shutdown (pre ++ ODeliver id addr :: between) = true ->
+  ((exists body, o = ORespond h body) \/ o = ODrop h) ->
+  let ops := (pre ++ ODeliver id addr :: between) ++ o :: post in
+  nth (length (pre ++ ODeliver id addr :: between)) (results ops) RNoSuch
+    = (match o with ORespond _ _ => RErr | _ => RUnit end) /\
+  msgs_of h (final ops) = [].
+Proof. exact delivered_consumed_after_shutdown. Qed.
+Print Assumptions C20_delivered_request_consumed_after_shutdown.
+
+(* ... and while it is held nothing is sent on its behalf *)
+Theorem C20_delivered_request_held_is_silent :
+  forall pre id addr between,
+  let h := handle_after pre in
+  forallb (fun o => negb (names h o)) between = true ->
+  msgs_of h (final (pre ++ ODeliver id addr :: between)) = [].
+Proof. exact delivered_held_is_silent. Qed.
+Print Assumptions C20_delivered_request_held_is_silent.
+
+(* the hypotheses on a non-trivial history: two requests outstanding, the second delivered request
+   (handle 1) is held while the first is answered and a third arrives, then dropped *)
+Example C20_delivered_example :
+  let pre := [ODeliver 11 1] in
+  let between := [ORespond 0 [5]; ODeliver 13 3; OHold] in
+  handle_after pre = 1 /\
+  forallb (fun o => negb (names 1 o)) between = true /\
+  existsb is_shutdown (pre ++ ODeliver 12 2 :: between) = false /\
+  msgs_of 1 (final ((pre ++ ODeliver 12 2 :: between) ++ ODrop 1 :: [OShutdown; ODrop 2]))
+  = [{| mh := 1; mid := 12; maddr := 2; mbody := [] |}].
+Proof. vm_compute. repeat split; reflexivity. Qed.
+Print Assumptions C20_delivered_example.
